@@ -14,6 +14,26 @@ def check(tier, vseed, args):
     violations, harness = [], []
     stats = Stats()
 
+    # known findings: fixed entries are regression replays that must pass
+    import json
+    import os
+
+    kf_info = []
+    known = []
+    for kf in core.load_known_findings():
+        if kf["property"] != PROP:
+            continue
+        with open(os.path.join(core.VERIF_DIR, kf["replay"])) as f:
+            rp = json.load(f)
+        divs = c15.failing(rp["spec"], rp["ops"])
+        kf_info.append({"id": kf["id"], "status": kf["status"], "still_fails": bool(divs)})
+        if divs and kf["status"] == "open":
+            known.append(f"KNOWN-FINDING: property={PROP} id={kf['id']} {kf['summary']}")
+        elif divs:
+            path = core.replay_path(PROP, vseed, f"regress-{kf['id']}")
+            core.write_json(path, dict(rp, divergence=divs[0]))
+            violations.append({"replay": path, "summary": f"fixed finding {kf['id']} is back"})
+
     def do_run(idx):
         return c15.one_run(vseed, idx, tier)
 
@@ -82,7 +102,8 @@ def check(tier, vseed, args):
             "histories are sequential (no threads, no re-entrancy)",
         ],
     }
-    return {"violations": violations, "known": [], "evidence": evidence,
+    evidence["coverage"]["known_findings"] = kf_info
+    return {"violations": violations, "known": known, "evidence": evidence,
             "harness_problems": harness}
 
 
